@@ -445,6 +445,40 @@ func runC19History(r *mon.Run, stream uint64) {
 		return
 	}
 	r.Count("pruned_store_reopens", 1)
+	// a prune on the restarted node that the process does not survive: whatever
+	// part of the walk had become durable, the next start has to be able to
+	// complete it ("repeated prunes")
+	if tipH := h.pTip.Height; tipH >= 2 {
+		hp := 1 + uint64(rng.IntN(int(tipH)+1))
+		if pn := mon.Guard(func() { re.CM.PruneBlocks(hp) }); pn != nil {
+			h.viol("prune-panic:after-reopen", fmt.Sprint("PruneBlocks panicked on a reopened store: ", pn), nil)
+			return
+		}
+		re2, err := chainlab.NewTestNodeOnImage(env, re.Shadow.Model.Durable)
+		if err != nil {
+			h.viol("pruned-store-reopen:after-interrupted-prune", "reopening after an interrupted prune failed: "+err.Error(), nil)
+			return
+		}
+		if re2.CM.Tip() != h.pTip.L.State.Index {
+			h.viol("pruned-store-reopen:after-interrupted-prune", "a store reopened after an interrupted prune does not come back at its tip", nil)
+			return
+		}
+		if pn := mon.Guard(func() { re2.CM.PruneBlocks(hp) }); pn != nil {
+			h.viol("prune-panic:after-reopen", fmt.Sprint("PruneBlocks panicked on a reopened store: ", pn), nil)
+			return
+		}
+		for x := h.pTip; x != nil; x = x.Parent {
+			_, has := re2.CM.Block(x.ID)
+			if x.Height < hp && has {
+				h.viol("body-kept-below-prune-height:after-interrupted-prune", fmt.Sprintf("PruneBlocks(%d) was interrupted by a stop (only what was durable survived) and repeated after the restart: the body of best-chain block %d is still stored", hp, x.Height), nil)
+				return
+			} else if x.Height >= hp && !has && !h.pruned[x.ID] {
+				h.viol("body-missing-above-prune-height:after-interrupted-prune", fmt.Sprintf("after PruneBlocks(%d), a restart and PruneBlocks(%d) again the body of best-chain block %d is gone", hp, hp, x.Height), nil)
+				return
+			}
+		}
+		r.Count("prunes_repeated_after_a_stop_during_the_first_attempt", 1)
+	}
 	r.Eval()
 	r.Distinct(fmt.Sprintf("c19/%s/%d/%d/%v", regime, stream, len(h.pruned), h.split))
 	if stream%37 == 0 {
@@ -453,7 +487,7 @@ func runC19History(r *mon.Run, stream uint64) {
 }
 
 func runC19(r *mon.Run, replay string) {
-	r.Rule("generated histories fed to a pruned node P and an unpruned twin U; PruneBlocks(h) for h in {0,1,mid,PRNG,tip,tip+1,tip+2,tip+5}, repeated; after every prune exactly the best-chain bodies below h must be absent (all other stored bodies present), index/states equal to the pure replay, MinReorgIndex = lowest block with all bodies above present, History/Headers equal to U's; forks with fork point above/at/below MinReorgIndex: at/above must be adopted with pure states, below may be refused with an error and an unchanged view; UpdatesSince/BlocksForHistory needing pruned bodies must error without panic; pruned store reopened from its durable image; a subscriber sitting on the highest pruned best-chain block must reach the tip; PruneBlocks with a heavier fork submitted from another goroutine during the walk (started from a store hook, lock hand-over forced by delays): the missing bodies and the tip must be explained by one of the two sequential orders; distinct = (regime, stream, pruned count, split)")
+	r.Rule("generated histories fed to a pruned node P and an unpruned twin U; PruneBlocks(h) for h in {0,1,mid,PRNG,tip,tip+1,tip+2,tip+5}, repeated; after every prune exactly the best-chain bodies below h must be absent (all other stored bodies present), index/states equal to the pure replay, MinReorgIndex = lowest block with all bodies above present, History/Headers equal to U's; forks with fork point above/at/below MinReorgIndex: at/above must be adopted with pure states, below may be refused with an error and an unchanged view; UpdatesSince/BlocksForHistory needing pruned bodies must error without panic; pruned store reopened from its durable image, pruned again, stopped (only the durable part survives), reopened and pruned again: exactly the best-chain bodies below the height are gone; a subscriber sitting on the highest pruned best-chain block must reach the tip; PruneBlocks with a heavier fork submitted from another goroutine during the walk (started from a store hook, lock hand-over forced by delays): the missing bodies and the tip must be explained by one of the two sequential orders; distinct = (regime, stream, pruned count, split)")
 	if st, ok := replayStream(replay); ok {
 		if st >= 195000 {
 			runC19PruneRace(r, st)
@@ -467,6 +501,7 @@ func runC19(r *mon.Run, replay string) {
 	r.Floor("prune_race_submission_started_by_the_hook", 20)
 	r.Floor("pruned_node_audits", 500)
 	r.Floor("subscribers_resumed_on_a_pruned_block", 100)
+	r.Floor("prunes_repeated_after_a_stop_during_the_first_attempt", 100)
 	r.Floor("prunes:beyond-tip+1", 20)
 	r.Floor("forks:below-minreorg", 20)
 	r.Floor("forks:at-minreorg", 20)
